@@ -384,7 +384,7 @@ func c14Instantiate(shape string, r *core.Rng, words []string) string {
 func c14() *core.Check {
 	return &core.Check{
 		ID: "C14",
-		Rule: "G_benign against the LIVE keyword table: word = [A-Za-z_][A-Za-z0-9_]* from a frozen list (4000 English words in three capitalisations + identifier shapes of length 1-40), also behind 28 identifier prefixes (sp_, xp_, pg_, is_, ... one family per sequence) and mixed with marker-like words (sp_password, near-keywords) that is not a key, component or dotted prefix of a key; number = [0-9]+ incl. 31/32/33-digit runs; (1) the token-class abstraction exhaustively: all 62 sequences over {n,1} of length 1-5 must be absent from the live blacklist; (2) every sequence shape over {word,number} up to length 7 joined by single spaces, 64 (thorough 16384) random instantiations each; (3) e-mail / decimal / sentence shapes incl. apostrophes, near-keyword words (one letter glued to a keyword) and random identifiers (those not dropped by the one-time calibration), sampled; (4) 24 M (thorough 300 M) inputs built from distinct random identifiers between numbers; (5) ~30 000 keyword look-alikes (digits for look-alike letters, one letter dropped / doubled / swapped, common suffixes; those that are not table words) in six frames; (6) one identifier of 2^k+d letters (k up to 16, d = -34..34, also 65568+d) whose tail spells a keyword; multi-word keys glued into one identifier; base64 / hex spellings of injection strings; (7) benign bodies of 128 KiB-16 MiB (thorough 256 MiB); (8) long benign texts whose first and last 2^k bytes would join into a keyword; (9) the letters of every two-word table phrase split at another place, asked right after the phrase itself; sentences in which one word ends with and the next begins with the two keywords of an attack phrase; attacks written as decimal / octal character-code lists (numbers only); every keyword nested in itself, with an underscore or digit inside, doubled; the parts of every underscore-spelt table key as separate words (\"uni on\"); ~250 words of SQL grammars that are not table words, in ordered pairs around numbers (\"page first 10 rows 25\"); every eighth input is also asked through a zero-copy view of a recycled buffer that held an equally long attack one call earlier. Oracle: IsSQLi = (false,\"\"). " +
+		Rule: "G_benign against the LIVE keyword table: word = [A-Za-z_][A-Za-z0-9_]* from a frozen list (4000 English words in three capitalisations + identifier shapes of length 1-40), also behind 28 identifier prefixes (sp_, xp_, pg_, is_, ... one family per sequence) and mixed with marker-like words (sp_password, near-keywords) that is not a key, component or dotted prefix of a key; number = [0-9]+ incl. 31/32/33-digit runs; (1) the token-class abstraction exhaustively: all 62 sequences over {n,1} of length 1-5 must be absent from the live blacklist; (2) every sequence shape over {word,number} up to length 7 joined by single spaces, 64 (thorough 16384) random instantiations each; (3) e-mail / decimal / sentence shapes incl. apostrophes, near-keyword words (one letter glued to a keyword) and random identifiers (those not dropped by the one-time calibration), sampled; (4) 24 M (thorough 300 M) inputs built from distinct random identifiers between numbers; (5) ~30 000 keyword look-alikes (digits for look-alike letters, one letter dropped / doubled / swapped, common suffixes; those that are not table words) in six frames; (6) one identifier of 2^k+d letters (k up to 16, d = -34..34, also 65568+d) whose tail spells a keyword; multi-word keys glued into one identifier; base64 / hex spellings of injection strings; (7) benign bodies of 128 KiB-16 MiB (thorough 256 MiB); (8) long benign texts whose first and last 2^k bytes would join into a keyword; (9) the letters of every two-word table phrase split at another place, asked right after the phrase itself; sentences in which one word ends with and the next begins with the two keywords of an attack phrase; attacks written as decimal / octal character-code lists (numbers only); every keyword nested in itself, with an underscore or digit inside, doubled; the parts of every underscore-spelt table key as separate words (\"uni on\"); ~250 words of SQL grammars that are not table words, in ordered pairs around numbers (\"page first 10 rows 25\"); every eighth input is also asked through a zero-copy view of a recycled buffer that held an equally long attack one call earlier; every string of 3-7 atoms over { 1 blank && ' ( ) \" # % } written as one number in hex pairs, 3-digit decimal and octal codes. Oracle: IsSQLi = (false,\"\"). " +
 			"Non-trivial = every instance; distinct by string. The per-context fingerprints are recorded to show that the n/1 abstraction is what the implementation produced.",
 		Exhaustive: false,
 		Plan: func(tier string, seed uint64) []core.Unit {
@@ -411,6 +411,7 @@ func c14() *core.Check {
 			us = append(us, core.Unit{Gen: "resplit", Lo: 0, Hi: 1})
 			us = append(us, core.Unit{Gen: "unsplit", Lo: 0, Hi: 1})
 			us = append(us, core.Unit{Gen: "charcodes", Lo: 0, Hi: 1})
+			us = append(us, gen.EnumUnits("armoured", 9, 7, 100000)...)
 			us = append(us, gen.RangeUnits("sqlish", uint64(len(c14SQLish)), 8, "")...)
 			return us
 		},
@@ -522,6 +523,29 @@ func c14() *core.Check {
 						for _, f := range []string{"5 %s %s 7", "%s %s 3", "1 %s %s", "items %s %s 3"} {
 							emit(core.Case{In: fmt.Sprintf(f, w1, w2), Kind: "resplit", S: low})
 						}
+					}
+				}
+			case "armoured":
+				// every string of up to 7 atoms over the bytes whose hex code has no letter
+				// (1 blank & ' ( ) " # %), written as ONE number: hex digit pairs, 3-digit
+				// decimal and 3-digit octal codes ("3120262620283129" is "1 && (1)"): a
+				// decoder tried on values that look armoured
+				atoms := []string{"1", " ", "&&", "'", "(", ")", "\"", "#", "%"}
+				var buf []byte
+				l, _ := strconv.Atoi(u.Arg)
+				for i := u.Lo; i < u.Hi && l >= 3; i++ {
+					buf = gen.Enum(atoms, l, i, buf)
+					var hx, dc, oc []byte
+					for _, c := range buf {
+						hx = append(hx, fmt.Sprintf("%02x", c)...)
+						dc = append(dc, fmt.Sprintf("%03d", c)...)
+						oc = append(oc, fmt.Sprintf("%03o", c)...)
+					}
+					emit(core.Case{In: string(hx), Kind: "armoured"})
+					if l >= 6 {
+						emit(core.Case{In: string(dc), Kind: "armoured"})
+						emit(core.Case{In: string(oc), Kind: "armoured"})
+						emit(core.Case{In: "zq " + string(hx), Kind: "armoured"})
 					}
 				}
 			case "charcodes":
